@@ -1,6 +1,6 @@
 (** Pins/C19.v — the statements of the C19 theorems, pinned: weakening a statement in
     Properties/C19.v makes this file fail. *)
-From PdfV Require Import Base.Prelude Gen.Generated Font.Model Font.Spec Font.WidthProofs Font.UtfProofs Properties.C19.
+From PdfV Require Import Base.Prelude Gen.Generated Font.Model Font.Spec Font.WidthProofs Font.UtfProofs Font.CmapProofs Properties.C19.
 
 Check C19_get_set : forall w c x, exists w', _set w c x = Ok w' /\
   forall c', get w' c' = if c' =? c then x else get w c'.
@@ -16,3 +16,7 @@ Check C19_simple_widths : forall first ws missing c, (0 <= first)%Z ->
   exists w, simple_widths (Some first) (Some ws) missing = Some w /\
     get w c = simple_spec (Z.to_N first) ws (match missing with Some d => d | None => 0 end) c.
 Check C19_utf16_rt : forall u, forallb is_scalar u = true -> utf16be_to_string (utf16be_bytes u) = Ok u.
+Check C19_cmap_read : forall t, wf_cmap t -> parse_cmap (render_cmap t) = Ok (cmap_denote t).
+Check C19_write_tokens_standard :
+  (forall c, c < 65536 -> write_cid c = hstr (cid_bytes c)) /\
+  (forall u, wf_ustr u -> write_unicode u = hstr (utf16be_bytes u)).
